@@ -7,7 +7,7 @@ TEXT = json.load(open(os.path.join(V, "tools", "manifest_text.json")))
 BASELINE = "for m in $(cat /w/out/gomods.txt); do MF=$(cd /repo/$m && . /w/out/goenv.sh && gomodflag); (cd /repo/$m && go test $MF -json -vet=off -count=1 -timeout 25m ./...); done"
 m = {
  "version": 1,
- "setup_cmd": "cd /verif && ./check build",
+ "setup_cmd": "cd /verif && ./check build && ./check selftest",
  "hooks": {"guard": "verif_harness", "enable": "no source hooks: harness files (/verif/harness/**, //go:build verif_harness) and the verif runtime are injected into the target packages with go/packages overlays (engine) and `go test -tags verif_harness -overlay` (native replay); nothing is added to /repo",
            "baseline_off_cmd": BASELINE, "source_commits": [], "add_only": True},
  "engines": [{"name": "gosmt", "path": "engine/cmd/gosmt", "serves_properties": sorted(k for k in checks if k != "C19"),
